@@ -397,6 +397,10 @@ fn dash_path_spec(ext: f32, aligned: bool) -> BoxedStrategy<PathSpec> {
                     ops.push(POp::L(last.0 + 5.0, last.1 + 3.0));
                 }
                 if closed {
+                    // sometimes return exactly to the start before closing (zero-length closing segment)
+                    if ops.len() >= 3 && (pts[0].0.to_bits() & 3) == 0 {
+                        ops.push(POp::L(pts[0].0, pts[0].1));
+                    }
                     ops.push(POp::Z);
                 }
                 ops
